@@ -6,6 +6,7 @@ import Mahotas.Proofs.C05Strided
 import Mahotas.Proofs.C05Abscissa
 import Mahotas.Proofs.C05Bounds
 import Mahotas.Proofs.C05Rounded
+import Mahotas.Proofs.C05Binary64
 open Mahotas Mahotas.C05 Mahotas.C04
 
 /-- **C05-T1 (the 1-D pass is the exact lower envelope).** For every integer line `f` of every
@@ -407,3 +408,71 @@ example : (distanceRounded id [3, 4] #[1, 0, 1, 1, 1, 1, 1, 1, 1, 1, 0, 1]).1.da
     (distanceRounded id [3, 4] #[1, 0, 1, 1, 1, 1, 1, 1, 1, 1, 0, 1]).2.data
     = #[1, 1, 1, 1, 1, 1, 10, 10, 10, 10, 10, 10] := by decide +kernel
 example : dt1dR id #[5, 9, 0, 9, 9, 1] = [4, 1, 0, 1, 2, 1] := by decide +kernel
+
+/-! ## Round 3 — a concrete rounding: binary64 round-to-nearest -/
+
+/-- **C05 (binary64 round-to-nearest satisfies the `Rounding` interface).** `rndBin n x` rounds a rational
+`x` to a multiple of `2^(⌊log₂|x|⌋ − 52)` (the spacing of the binary64 numbers in the binade of `|x|`), the
+integer quotient being chosen by a nearest-integer function `n`; `roundEven` is nearest with ties to even
+and `rne53 = rndBin roundEven` is IEEE-754 binary64 `roundTiesToEven` with an unbounded exponent range (what
+the hardware division returns whenever the exact quotient has magnitude in the normal range
+`[2^-1022, 2^1024)`; bit patterns, infinities and subnormals are not modelled). Proved: (1) `rne53` is a
+`Rounding` — monotone, relative error at most `2⁻⁵³`, exact on integers up to `2⁵³`; (2) so is `rndBin n`
+for EVERY nearest-integer function `n` (any tie rule); (3) `roundEven` is a nearest-integer function and
+resolves ties to the even integer; (4) for `x ≠ 0` the result is `m·2^(e−52)` with an integer significand
+`2⁵² ≤ |m| ≤ 2⁵³` at most half a unit from `x/2^(e−52)`: a nearest binary64 value. -/
+theorem C05_binary64_is_rounding :
+    Rounding rne53 ∧
+    (∀ n : ℚ → ℤ, (∀ y, |(n y : ℚ) - y| ≤ 1 / 2) → Rounding (rndBin n)) ∧
+    ((∀ y : ℚ, |(roundEven y : ℚ) - y| ≤ 1 / 2) ∧
+      ∀ y : ℚ, y - (⌊y⌋ : ℚ) = 1 / 2 → roundEven y % 2 = 0) ∧
+    (∀ x : ℚ, x ≠ 0 → ∃ m : ℤ, rne53 x = (m : ℚ) * (2 : ℚ) ^ (Int.log 2 |x| - 52) ∧
+      2 ^ 52 ≤ |m| ∧ |m| ≤ 2 ^ 53 ∧ |(m : ℚ) - x / (2 : ℚ) ^ (Int.log 2 |x| - 52)| ≤ 1 / 2) :=
+  ⟨rne53_rounding, rndBin_rounding, ⟨roundEven_near, roundEven_tie_even⟩,
+   fun x hx => rndBin_significand roundEven roundEven_near x hx⟩
+
+/-- **C05 (every abscissa of `distance()` is 0 or far inside the normal range of binary64).** For sides
+`≤ 2¹²` and sentinel `≤ 2²⁶`: on the line of every pass `k` through every pixel, the intersection abscissa
+of any two roots `u < v` of the line — the kernel only ever computes abscissae of this form — is `0` or has
+magnitude between `2⁻¹³` and `2²⁷`. So the division that produces it neither overflows nor underflows, which
+is the range in which `rne53` is the hardware rounding. -/
+theorem C05_abscissa_normal_range (shape : List Nat) (bw : Array Int)
+    (hside : ∀ d ∈ shape, d ≤ 2 ^ 12) (hsent : sentinel shape ≤ 2 ^ 26)
+    (k : Nat) (hk : k < shape.length) (p : List Int) (u v : ℕ) (huv : u < v)
+    (hv : v < shape.getD k 0) :
+    sInt (gOf (lineOf ((List.range k).foldl passCoord (initCoord shape bw)).1 p k)) u v = 0 ∨
+    (1 / 2 ^ 13 ≤ |sInt (gOf (lineOf ((List.range k).foldl passCoord (initCoord shape bw)).1 p k)) u v| ∧
+     |sInt (gOf (lineOf ((List.range k).foldl passCoord (initCoord shape bw)).1 p k)) u v| ≤ 2 ^ 27) :=
+  lines_abscissa_normal shape bw hside hsent k hk p u v huv hv
+
+/-- **C05 (`distance()` with binary64 abscissae = `distance()` with exact rational abscissae).** The
+instance of `C05_rounded_image_exact` at the concrete rounding `rne53`: for every rank and shape with sides
+`≤ 2¹²` and sentinel `≤ 2²⁶` and every input, the whole-image model in which every intersection abscissa is
+rounded to binary64 (round to nearest, ties to even) returns exactly the images — values and tracked
+origins — of `distanceCoord`; hence (with `C05_model_eq_coord`) the flat arrays of `distanceModel`, and with
+some background pixel every value is the exact minimum squared distance to the background. No hypothesis
+about the rounding remains. -/
+theorem C05_binary64_image_exact (shape : List Nat) (bw : Array Int)
+    (hside : ∀ d ∈ shape, d ≤ 2 ^ 12) (hsent : sentinel shape ≤ 2 ^ 26) :
+    distanceRounded rne53 shape bw = distanceCoord shape bw ∧
+    (bw.size = shapeSize shape →
+      (distanceModel shape bw).1 = (distanceRounded rne53 shape bw).1.data ∧
+      (distanceModel shape bw).2 = (distanceRounded rne53 shape bw).2.data) ∧
+    (∀ p, inside shape p = true →
+      (∃ q0, inside shape q0 = true ∧ bw.getD (ravelI shape q0) 0 = 0) →
+      (∀ q, inside shape q = true → bw.getD (ravelI shape q) 0 = 0 →
+          (distanceRounded rne53 shape bw).1.getD p 0 ≤ sqDist p q) ∧
+      (∃ q, inside shape q = true ∧ bw.getD (ravelI shape q) 0 = 0 ∧
+          (distanceRounded rne53 shape bw).1.getD p 0 = sqDist p q)) :=
+  ⟨distanceRounded_rne53_eq shape bw hside hsent,
+   (C05_rounded_model_exact rne53 rne53_rounding shape bw hside hsent).2,
+   (C05_rounded_model_exact rne53 rne53_rounding shape bw hside hsent).1⟩
+
+/-- non-vacuity: `rne53` really rounds (`1/3 ↦ 6004799503160661·2⁻⁵⁴`, the binary64 number `0x3FD5555555555555`),
+and the whole-image model with `rne53` abscissae on a 2×2×3 image -/
+example : rne53 (1 / 3) = 6004799503160661 / 18014398509481984 ∧ rne53 (1 / 3) ≠ 1 / 3 := by
+  rw [rne53_one_third]; norm_num
+example : (distanceRounded rne53 [2, 2, 3] #[1, 1, 1, 1, 1, 1, 1, 1, 1, 1, 0, 1]).1.data
+    = #[3, 2, 3, 2, 1, 2, 2, 1, 2, 1, 0, 1] := by
+  rw [(C05_binary64_image_exact [2, 2, 3] _ (by decide) (by decide)).1]
+  decide +kernel
